@@ -40,8 +40,15 @@ def as_seq(ctx, lst: VObj) -> VSeq:
     fields = h["__fields__"]
 
     def item(c, i):
+        if h["__elemcls__"] == "str":
+            return VStr(z3.Select(h["col:v"], i))
         return c.alloc(h["__elemcls__"], {f: WRAP[k](z3.Select(h["col:" + f], i)) for f, k in fields.items()})
     return VSeq("symlist", h["n"].z, item)
+
+
+def new_strlist(ctx, hint: str, fixed=False) -> VObj:
+    """Symbolic list of strings (element class 'str', single column 'v')."""
+    return new_symlist(ctx, "str", {"v": "str"}, hint, fixed)
 
 
 def install(E):
@@ -51,11 +58,23 @@ def install(E):
         (v,) = args
         h = ctx.heap[lst.oid]
         n = h["n"].z
-        for f, k in h["__fields__"].items():
-            fv = ctx.getf(v, f)
-            h["col:" + f] = z3.Store(h["col:" + f], n, fv.z)
+        if h["__elemcls__"] == "str":
+            h["col:v"] = z3.Store(h["col:v"], n, v.z)
+        else:
+            for f, k in h["__fields__"].items():
+                fv = ctx.getf(v, f)
+                h["col:" + f] = z3.Store(h["col:" + f], n, fv.z)
         h["n"] = VInt(n + 1)
         return NONE
+
+    def contains(ctx, lst, item):
+        h = ctx.heap[lst.oid]
+        if h["__elemcls__"] != "str":
+            from .loader import Unsupported
+            raise Unsupported("`in` on a symbolic list of objects")
+        j = z3.Int("cj")
+        return z3.Exists([j], z3.And(0 <= j, j < h["n"].z, z3.Select(h["col:v"], j) == item.z))
+    M[("contains", CLS)] = contains
     M[(CLS, "append")] = append
     M[("bool", CLS)] = lambda ctx, lst: ctx.heap[lst.oid]["n"].z > 0
     M[("len", CLS)] = lambda ctx, lst: VInt(ctx.heap[lst.oid]["n"].z)
